@@ -12,7 +12,7 @@ from lib import fs_str as F
 THEOREMS = [
     "Claripy.Props.C26.bv_extract_ok", "Claripy.Props.C26.str_to_int_unlimited_ok", "Claripy.Props.C26.concat_quirk_ok",
     "Claripy.Props.C26.concat_quirk_neg_zero_wrong", "Claripy.Props.C26.str_extract_ok",
-    "Claripy.Props.C26.str_extract_undecoded_wrong", "Claripy.Props.C26.fp_encoded_ok", "Claripy.Props.C26.fp_extract_partial",
+    "Claripy.Props.C26.str_extract_undecoded_wrong", "Claripy.Props.C26.fp_encoded_ok", "Claripy.Props.C26.fp_extract_ok", "Claripy.Props.C26.fp_extract_nan",
 ]
 TESTS = ["Claripy.Props.C26.test_fp_extract_samples"]
 WIDTHS = [1, 2, 7, 8, 31, 32, 33, 63, 64, 65, 127, 128, 200, 256]
